@@ -81,7 +81,7 @@ func checkPoolCreate(c *core.Ctx, m *RunModel) {
 	// volume of the new token = copy of liquidity (#2), taken before liquidity is reduced in place
 	vol := ct.Arg(5)
 	volOK := false
-	if cp, ok := core.Unwrap(vol).(*ssa.Call); ok && core.CalleeName(&cp.Call) == "(*math/big.Int).Set" && extractOf(cp.Call.Args[1], call, 2) {
+	if cp, ok := core.Unwrap(vol).(*ssa.Call); ok && core.CalleeName(core.NormCall(&cp.Call)) == "(*math/big.Int).Set" && extractOf(core.NormCall(&cp.Call).Args[1], call, 2) {
 		volOK = true
 		// no in-place mutation of liquidity before the copy
 		for _, s := range core.Sites(m.Fn) {
@@ -109,7 +109,7 @@ func checkPoolCreate(c *core.Ctx, m *RunModel) {
 	c.Check(zeroOK, rule, name+"/bound-locked", posOrZero(toZero), "swap.Bound of the pool token is credited to the zero address", "the minimum liquidity is not locked at the zero address")
 	senderOK := false
 	if toSender != nil {
-		if sub, ok := core.Unwrap(toSender.Arg(2)).(*ssa.Call); ok && core.CalleeName(&sub.Call) == "(*math/big.Int).Sub" && extractOf(sub.Call.Args[1], call, 2) && strings.HasSuffix(core.Path(sub.Call.Args[2]), "global:Bound") {
+		if sub, ok := core.Unwrap(toSender.Arg(2)).(*ssa.Call); ok && core.CalleeName(core.NormCall(&sub.Call)) == "(*math/big.Int).Sub" && extractOf(core.NormCall(&sub.Call).Args[1], call, 2) && strings.HasSuffix(core.Path(core.NormCall(&sub.Call).Args[2]), "global:Bound") {
 			senderOK = true
 		}
 	}
@@ -131,8 +131,8 @@ func checkPoolCreate(c *core.Ctx, m *RunModel) {
 }
 
 func symbolArg(v ssa.Value) ssa.Value {
-	if call, ok := core.Unwrap(v).(*ssa.Call); ok && len(call.Call.Args) == 1 {
-		return call.Call.Args[0]
+	if call, ok := core.Unwrap(v).(*ssa.Call); ok && len(core.NormCall(&call.Call).Args) == 1 {
+		return core.NormCall(&call.Call).Args[0]
 	}
 	return v
 }
@@ -155,15 +155,15 @@ func lpCoinValue(v ssa.Value, method string) bool {
 		return false
 	}
 	coin, ok := core.Unwrap(s.Recv()).(*ssa.Call)
-	if !ok || !strings.HasSuffix(core.CalleeName(&coin.Call), ".GetCoinBySymbol") {
+	if !ok || !strings.HasSuffix(core.CalleeName(core.NormCall(&coin.Call)), ".GetCoinBySymbol") {
 		return false
 	}
 	cs := &core.Site{Instr: coin, Common: &coin.Call}
 	sym, ok := core.Unwrap(cs.Arg(0)).(*ssa.Call)
-	if !ok || !strings.HasSuffix(core.CalleeName(&sym.Call), ".LiquidityCoinSymbol") {
+	if !ok || !strings.HasSuffix(core.CalleeName(core.NormCall(&sym.Call)), ".LiquidityCoinSymbol") {
 		return false
 	}
-	gid, ok := core.Unwrap(sym.Call.Args[0]).(*ssa.Call)
+	gid, ok := core.Unwrap(core.NormCall(&sym.Call).Args[0]).(*ssa.Call)
 	if !ok || !gid.Call.IsInvoke() || gid.Call.Method.Name() != "GetID" {
 		return false
 	}
@@ -177,7 +177,7 @@ func lpCoinValue(v ssa.Value, method string) bool {
 			if !ok || !gs.Call.IsInvoke() || gs.Call.Method.Name() != "GetSwapper" {
 				return false
 			}
-			return core.Path(gs.Call.Args[0]) == "data.Coin0" && core.Path(gs.Call.Args[1]) == "data.Coin1"
+			return core.Path(core.NormCall(&gs.Call).Args[0]) == "data.Coin0" && core.Path(core.NormCall(&gs.Call).Args[1]) == "data.Coin1"
 		})
 		if !isPair {
 			return false
@@ -287,8 +287,8 @@ func checkPairKeys(c *core.Ctx, rule string) {
 		case *ssa.MapUpdate:
 			key = x.Key
 		case *ssa.Call:
-			if len(x.Call.Args) == 2 {
-				key = x.Call.Args[1] // delete(m, k)
+			if len(core.NormCall(&x.Call).Args) == 2 {
+				key = core.NormCall(&x.Call).Args[1] // delete(m, k)
 			}
 		}
 		if key == nil {
@@ -326,7 +326,7 @@ func normalisedKey(c *core.Ctx, o ssa.Value, at ssa.Instruction) (string, bool) 
 			}
 			return "key.reverse() without an isSorted() test", false
 		}
-		return "result of " + core.CalleeName(&x.Call), false
+		return "result of " + core.CalleeName(core.NormCall(&x.Call)), false
 	case *ssa.Extract:
 		if nx, ok := x.Tuple.(*ssa.Next); ok {
 			if rg, ok := nx.Iter.(*ssa.Range); ok {
@@ -435,8 +435,8 @@ func checkRunningSimulation(c *core.Ctx, rule string) {
 						if x.Call.IsInvoke() {
 							return derives(x.Call.Value, seen)
 						}
-						if sc := x.Call.StaticCallee(); sc != nil && sc.Signature.Recv() != nil && len(x.Call.Args) > 0 {
-							return derives(x.Call.Args[0], seen)
+						if sc := x.Call.StaticCallee(); sc != nil && sc.Signature.Recv() != nil && len(core.NormCall(&x.Call).Args) > 0 {
+							return derives(core.NormCall(&x.Call).Args[0], seen)
 						}
 					}
 					return false
